@@ -279,6 +279,58 @@ func Run(r *ev.Run) {
 		}
 	}
 
+	// ---- round 14: server_name lists that hold entries of OTHER name types (RFC 6066 3: NameType is an extensible enum, the
+	// entry is type + opaque<1..2^16-1>). This package refuses such hellos with illegal_parameter - its author's choice, recorded
+	// in DESIGN 7 as outside the property - but IF a hello is passed through, what ServerName() reports is what crypto/tls
+	// extracts from the same bytes: an entry of another type is skipped WITH its contents, whatever the contents look like (a
+	// host_name entry spelled inside the opaque field is not a host name) ----
+	{
+		entry := func(typ byte, name []byte) []byte {
+			return append([]byte{typ, byte(len(name) >> 8), byte(len(name))}, name...)
+		}
+		inner := entry(0, []byte("internal.example"))
+		fill := func(b byte, n int) []byte { return bytes.Repeat([]byte{b}, n) }
+		opaque := [][]byte{[]byte("x"), inner, append(slices.Clone(inner), fill(1, 0x0110-len(inner))...), append(slices.Clone(inner), fill(2, 0x0101-len(inner))...), append(fill(3, 0x0203-len(inner)), inner...), fill(0, 5)}
+		for oi, op := range opaque {
+			for _, typ := range []byte{1, 2, 255} {
+				for li, list := range [][]byte{entry(typ, op), append(entry(0, []byte("plain.example.org")), entry(typ, op)...), append(entry(typ, op), entry(0, []byte("plain.example.org"))...)} {
+					for ksi := range ks {
+						data := append([]byte{byte(len(list) >> 8), byte(len(list))}, list...)
+						h := &tlsref.Hello{Version: 0x0303, Random: tlsref.DetBytes("c05-random", 32), SessionID: tlsref.DetBytes("sid", 32), CipherSuites: ciphers(0), Compression: []byte{0},
+							Exts: []tlsref.Ext{{Type: 0, Data: data}, tlsref.SupportedVersions(0x0304), tlsref.SupportedGroups(), tlsref.SigAlgs(), tlsref.KeyShare(32)}}
+						stream := h.Record()
+						res := echx.Feed(stream, ks[ksi])
+						replay := map[string]any{"case": fmt.Sprintf("server_name list layout %d with an entry of name type %d whose contents are variant %d (%d octets)", li, typ, oi, len(op)), "stream": echx.Hex(stream), "keys": echx.KeysDoc(ks[ksi])}
+						oc := ""
+						switch {
+						case res.Panic != nil:
+							oc = "panic"
+							r.Violation("panic:other-name-type", fmt.Sprint(res.Panic), replay)
+						case res.Err != nil:
+							oc = "refused:" + echx.ErrClass(res.Err)
+							if echx.ErrClass(res.Err) != "illegal_parameter" {
+								r.Violation("other-name-type:refused-as-"+echx.ErrClass(res.Err), fmt.Sprintf("a server_name list with an entry of name type %d is refused with %v (this package's documented choice is illegal_parameter)", typ, res.Err), replay)
+							}
+						case res.Accepted:
+							oc = "ACCEPTED"
+							r.Violation("accepted-garbage:other-name-type", "ECH accepted for a hello without an ECH extension", replay)
+						default:
+							oc = "passthrough"
+							if !bytes.Equal(res.Forwarded, stream) {
+								r.Violation("bytes-modified:other-name-type", "forwarded bytes differ from the client's bytes", replay)
+							}
+							if seen, err := tlsx.GoServerSees(stream, nil); err == nil && seen.ServerName != res.ServerName {
+								oc = "passthrough, name differs"
+								r.Violation("name-alpn-differs:other-name-type", fmt.Sprintf("Conn reports ServerName=%q; crypto/tls extracts %q from the same bytes", res.ServerName, seen.ServerName), replay)
+							}
+						}
+						r.Eval(string(stream)+fmt.Sprint("other-name-type", ksi), "other-name-type -> "+oc)
+					}
+				}
+			}
+		}
+	}
+
 	// ---- hellos that do not offer TLS 1.3 but carry an AUTHENTIC ECH payload for a held key: pass-through required ----
 	{
 		key := echx.NewKey("c05-same", 42, echx.AllSuites, "plain.example.org")
